@@ -655,9 +655,16 @@ class IPPO(MultiAgentRLAlgorithm):
             values = values.reshape((-1,))
             returns = advantages + values
 
+        # States and actions are batched agent by agent, i.e. in (agent, step, env) order, whereas
+        # the tensors above are in (step, agent, env) order: bring them into the same order, so
+        # that row i of every tensor belongs to the same agent, time step and environment
+        num_agents = len(states)
+        log_probs, advantages, returns, values = (
+            exp.reshape(num_steps, num_agents, -1).transpose(0, 1).reshape(-1)
+            for exp in (log_probs, advantages, returns, values)
+        )
         states = concatenate_experiences_into_batches(states, obs_space)
         actions = concatenate_experiences_into_batches(actions, action_space)
-        log_probs = log_probs.reshape((-1,))
         experiences = (states, actions, log_probs, advantages, returns, values)
 
         # Move experiences to algo device
